@@ -171,7 +171,11 @@ def attached_handles(w, rid=None, allow_removed=False):
 def gen_op_step(rng, w, h, depth=2, mut_weight=0.6, slices=False, reads=None, muts=None, keep_p=0.3, attr_p=0.0):
     """An op step through handle h (must be attached)."""
     r = w.res[w.objs[h.oid].rid]
-    c = get_path(r.model, h.path)
+    if h.state == "removed":
+        c = {} if h.kind == "dict" else []   # content unknown to the model: ops must not depend on it
+        muts = ["setitem", "update", "setdefault", "clear", "reset"] if h.kind == "dict" else ["append", "extend", "insert", "clear", "reset", "iadd"]
+    else:
+        c = get_path(r.model, h.path)
     if h.kind == "dict":
         name, args = gen_dict_op(rng, w, c, depth, mut_weight, reads, muts)
     else:
